@@ -14,36 +14,43 @@ import (
 	"math/rand/v2"
 	"os"
 	"path/filepath"
+	"runtime"
 	"sort"
+	"strconv"
+	"strings"
 	"sync/atomic"
 	"time"
 
-	"github.com/ozontech/file.d/zz_verifharness/core"
 	_ "github.com/ozontech/file.d/zz_verifharness/all"
+	"github.com/ozontech/file.d/zz_verifharness/core"
+	"verif/simrt"
 )
 
 type workerResult struct {
-	Prop         string            `json:"property"`
-	Runs         int               `json:"runs"`
-	NonTrivial   int               `json:"nontrivial"`
-	Inconclusive int               `json:"inconclusive"`
-	InconclusiveWhy map[string]int `json:"inconclusive_why,omitempty"`
-	Steps        int64             `json:"steps"`
-	SimTimeNs    int64             `json:"sim_time_ns"`
-	Faults       map[string]int    `json:"faults"`
-	Probes       map[string]int    `json:"probes"`
-	EndReasons   map[string]int    `json:"end_reasons"`
-	Known        map[string]int    `json:"known"`
-	KnownExample map[string]string `json:"known_example"`
-	Harnesses    map[string]int    `json:"harnesses"`
-	Samples      []any             `json:"samples"`
-	HashFile     string            `json:"hash_file"`
-	Violation    *core.Replay      `json:"violation,omitempty"`
-	ViolationFile string           `json:"violation_file,omitempty"`
-	MinimiseTries int              `json:"minimise_tries,omitempty"`
-	WallS        float64           `json:"wall_s"`
-	FirstIndex   int               `json:"first_index"`
-	LastIndex    int               `json:"last_index"`
+	Prop            string            `json:"property"`
+	Runs            int               `json:"runs"`
+	NonTrivial      int               `json:"nontrivial"`
+	Inconclusive    int               `json:"inconclusive"`
+	InconclusiveWhy map[string]int    `json:"inconclusive_why,omitempty"`
+	Steps           int64             `json:"steps"`
+	SimTimeNs       int64             `json:"sim_time_ns"`
+	Faults          map[string]int    `json:"faults"`
+	Probes          map[string]int    `json:"probes"`
+	EndReasons      map[string]int    `json:"end_reasons"`
+	Known           map[string]int    `json:"known"`
+	KnownExample    map[string]string `json:"known_example"`
+	Harnesses       map[string]int    `json:"harnesses"`
+	Samples         []any             `json:"samples"`
+	HashFile        string            `json:"hash_file"`
+	Violation       *core.Replay      `json:"violation,omitempty"`
+	ViolationFile   string            `json:"violation_file,omitempty"`
+	MinimiseTries   int               `json:"minimise_tries,omitempty"`
+	WallS           float64           `json:"wall_s"`
+	FirstIndex      int               `json:"first_index"`
+	LastIndex       int               `json:"last_index"`
+	Spin            bool              `json:"spin,omitempty"`       // the worker stopped because a run span without scheduling steps
+	SpinKnown       bool              `json:"spin_known,omitempty"` // ... and the signature is a known finding: restart at NextIndex
+	NextIndex       int               `json:"next_index,omitempty"`
 }
 
 var lastProgress atomic.Int64
@@ -59,6 +66,105 @@ func watchdog(limit time.Duration) {
 			}
 		}
 	}()
+}
+
+// ---- spin watch ----
+//
+// A goroutine of the system under test that loops without ever reaching a
+// scheduling point (no sync, channel, atomic, clock or I/O operation) cannot be
+// pre-empted or killed by the simulation. The watch recognises it by wall
+// clock: a simulation is running and its step counter has not moved for
+// spinLimit. The verdict is still replayable: the run is deterministic up to
+// the step at which it stops moving, so a replay must stop moving at the same
+// step with the same innermost file.d function on the stack.
+
+var spinLimit = func() time.Duration {
+	if v := os.Getenv("VERIF_SPIN_S"); v != "" {
+		if n, err := strconv.Atoi(v); err == nil && n > 0 {
+			return time.Duration(n) * time.Second
+		}
+	}
+	return 15 * time.Second
+}()
+
+type spinInfo struct {
+	Signature string
+	Detail    string
+	Steps     int
+	Info      *core.ExecInfo
+}
+
+func spinWatch(onSpin func(spinInfo)) {
+	go func() {
+		last, _ := simrt.WallProgress()
+		since := time.Now()
+		for {
+			time.Sleep(250 * time.Millisecond)
+			cur, sim := simrt.WallProgress()
+			if sim == nil || cur != last {
+				last, since = cur, time.Now()
+				continue
+			}
+			if time.Since(since) < spinLimit {
+				continue
+			}
+			info := core.Current.Load()
+			if info == nil || info.Sim != sim {
+				last, since = cur, time.Now()
+				continue
+			}
+			buf := make([]byte, 1<<20)
+			buf = buf[:runtime.Stack(buf, true)]
+			fn, stack := spinningFrame(string(buf))
+			if fn == "" {
+				// nothing of the system under test is on a running stack: not a spin of file.d (harness or runtime trouble)
+				fmt.Fprintf(os.Stderr, "simharness: no scheduling step for %v and no running goroutine inside file.d:\n%s\n", spinLimit, buf)
+				os.Exit(3)
+			}
+			onSpin(spinInfo{Signature: "spin/" + fn, Steps: sim.Steps(), Info: info,
+				Detail: fmt.Sprintf("no scheduling step for %v of wall time after step %d: a goroutine loops inside %s without reaching any synchronisation, clock or I/O operation\n%s", spinLimit, sim.Steps(), fn, stack)})
+			os.Exit(3) // onSpin exits itself
+		}
+	}()
+}
+
+// spinningFrame finds, among the goroutines that are on a CPU or runnable, the
+// innermost frame that belongs to file.d or one of its dependencies but not to
+// the harness or the simulation runtime, in a simulated goroutine.
+func spinningFrame(dump string) (fn string, stack string) {
+	for _, g := range strings.Split(dump, "\n\n") {
+		lines := strings.Split(g, "\n")
+		if len(lines) < 2 || !(strings.Contains(lines[0], "[running") || strings.Contains(lines[0], "[runnable")) {
+			continue
+		}
+		if !strings.Contains(g, "simrt.(*Sim).start") {
+			continue
+		}
+		inner := ""
+		for _, l := range lines[1:] {
+			if strings.HasPrefix(l, "\t") || l == "" {
+				continue
+			}
+			name := l
+			if i := strings.LastIndex(name, "("); i > 0 {
+				name = name[:i]
+			}
+			if strings.HasPrefix(name, "github.com/ozontech/file.d/") && !strings.Contains(name, "zz_verifharness") {
+				inner = strings.TrimPrefix(name, "github.com/ozontech/file.d/")
+				break
+			}
+			if strings.Contains(name, "zz_verifharness") || strings.HasPrefix(name, "verif/simrt") {
+				break // the innermost non-library frame is harness or runtime code
+			}
+		}
+		if inner != "" {
+			if len(lines) > 24 {
+				lines = lines[:24]
+			}
+			return inner, strings.Join(lines, "\n")
+		}
+	}
+	return "", ""
 }
 
 func main() {
@@ -82,6 +188,8 @@ func main() {
 		os.Exit(2)
 	}
 }
+
+var dumpCfg = os.Getenv("VERIF_DUMPCFG") != ""
 
 func cmdRun(args []string) {
 	fs := flag.NewFlagSet("run", flag.ExitOnError)
@@ -122,12 +230,46 @@ func cmdRun(args []string) {
 	hashes := map[uint64]struct{}{}
 	t0 := time.Now()
 	n := 0
+	curIdx := *start
+	spinWatch(func(sp spinInfo) {
+		// written from the watch goroutine while the spinning goroutine keeps its CPU; the main loop is blocked in Exec
+		cfgJSON, _ := json.Marshal(sp.Info.Cfg)
+		rp := &core.Replay{Property: *prop, Harness: sp.Info.H.Name(), Tier: *tier, Seed: *seed, Index: curIdx, Signature: sp.Signature,
+			Cfg: cfgJSON, Script: sp.Info.Sim.Decisions(), Detail: sp.Detail, Hash: fmt.Sprintf("spin@%d", sp.Steps), Steps: sp.Steps,
+			OrigDecisions: len(sp.Info.Sim.Decisions()),
+			Note:          "spin: not minimised (a goroutine that never reaches a scheduling point cannot be stopped in-process)"}
+		res.Spin = true
+		res.NextIndex = curIdx + *stride
+		res.WallS = time.Since(t0).Seconds()
+		if k := core.MatchKnown(known, core.Violation{Prop: *prop, Signature: sp.Signature, Detail: sp.Detail}); k != nil {
+			res.Known[k.Signature]++
+			if _, ok := res.KnownExample[k.Signature]; !ok {
+				res.KnownExample[k.Signature] = fmt.Sprintf("run_index=%d %s", curIdx, sp.Signature)
+			}
+			res.SpinKnown = true
+		} else {
+			os.MkdirAll(*out, 0o755)
+			path := filepath.Join(*out, fmt.Sprintf("%s-%s-seed%d-run%d.json", *prop, sp.Info.H.Name(), *seed, curIdx))
+			if err := core.WriteReplay(path, rp); err != nil {
+				fmt.Fprintln(os.Stderr, err)
+				os.Exit(2)
+			}
+			res.Violation = rp
+			res.ViolationFile = path
+		}
+		if *result != "" {
+			b, _ := json.Marshal(res)
+			os.WriteFile(*result, b, 0o644)
+		}
+		os.Exit(4)
+	})
 	for idx := *start; ; idx += *stride {
 		if time.Since(t0) > *budget || (*maxRuns > 0 && n >= *maxRuns) {
 			break
 		}
 		lastProgress.Store(time.Now().UnixNano())
-		h := hs[(idx / *stride) % len(hs)]
+		curIdx = idx
+		h := hs[(idx / *stride)%len(hs)]
 		if len(hs) > 1 {
 			h = hs[idx%len(hs)]
 		}
@@ -135,6 +277,10 @@ func cmdRun(args []string) {
 		rng := rand.New(rand.NewPCG(rs, 0x1234567))
 		cfg := h.Gen(rng, *tier, *prop)
 		cfg.SimCfg().Seed = rs
+		if dumpCfg {
+			cj, _ := json.Marshal(cfg)
+			fmt.Printf("CFG %d %s %s\n", idx, h.Name(), cj)
+		}
 		o := core.Exec(h, cfg, nil, false, false)
 		n++
 		res.LastIndex = idx
@@ -263,6 +409,18 @@ func cmdReplay(args []string) {
 		os.Exit(2)
 	}
 	watchdog(5 * time.Minute)
+	spinWatch(func(sp spinInfo) {
+		hash := fmt.Sprintf("spin@%d", sp.Steps)
+		found := sp.Signature == rp.Signature
+		if found {
+			fmt.Printf("REPRODUCED property=%s signature=%s hash=%s steps=%d\n%s\n", rp.Property, sp.Signature, hash, sp.Steps, sp.Detail)
+		}
+		out := map[string]any{"reproduced": found, "hash": hash, "hash_expected": rp.Hash, "hash_match": hash == rp.Hash,
+			"violations": []core.Violation{{Prop: rp.Property, Signature: sp.Signature, Detail: sp.Detail}}, "end_reason": "spin"}
+		b, _ := json.Marshal(out)
+		fmt.Println("RESULT " + string(b))
+		os.Exit(1)
+	})
 	o := core.Exec(h, cfg, rp.Script, true, *trace)
 	hash := fmt.Sprintf("%016x", o.Hash)
 	found := false
